@@ -264,7 +264,10 @@ supla_esp_devconn_recv_cb (void *arg, char *pdata, unsigned short len) {
 
 
 	} else {
+		// The segment cannot be stored: a part of the stream is lost and what
+		// follows can no longer be parsed as the frames the server sent.
 		supla_log(LOG_ERR, "Recv buffer size exceeded");
+		supla_system_restart();
 	}
 
 }
